@@ -24,13 +24,14 @@ type c13Desc struct {
 var c13Idents = [][4]string{
 	{"vendor", "product", "1.0", "http://example.org"},
 	{"", "", "", ""},
-	{"é<&> \"\x00 ", "😀", "v\n1", "url with spaces & <tags>"},
+	// U+FFFD (what a decoder substitutes for bad bytes, here genuinely encoded), BOM, line separators, a non-character
+	{"é<&> \"\x00 \uFFFD", "😀\uFEFF\u2028", "v\n1\u0085", "url with spaces & <tags> \uFFFF\uFFFD"},
 }
 
 var c13Descs = map[string]string{
 	"d1":  "interface a.b\nmethod F() -> ()\n",
 	"d2":  "",
-	"d3":  "# é😀<&>\"\\\x00 \n",
+	"d3":  "# é😀<&>\"\\\x00 \uFFFD\u2029\uFEFF\uFFFF \n",
 	"d4":  "#",
 	"big": strings.Repeat("# 0123456789abcdef\n", 4000),
 }
